@@ -115,6 +115,16 @@ Theorem C15_stopping_test_distance_to_mean :
 Proof. exact opt_stop_distance_to_posterior_mean. Qed.
 Print Assumptions C15_stopping_test_distance_to_mean.
 
+(* closing the chain with SciPy's max-norm test: the bound check_opt_stop also EVALUATES on every exact-gradient optimiser cell,
+   mu^2 |xs - x|^2 <= n gtol^2 for the specification's posterior mean xs, follows from opt_stop_ok alone *)
+Theorem C15_stopping_test_within :
+  forall (m n : nat) (A : list (list Qc)) (b x0 : list Qc) (ce cx : covform) (mu : Qc) (gtol : Q) (x xs : list Qc),
+  opt_stop_ok m n A b x0 ce (Some cx) mu gtol x = true ->
+  post_mean_exact m n A b x0 ce cx = Some xs -> length xs = n ->
+  dist_within n mu gtol x xs = true.
+Proof. exact opt_stop_within. Qed.
+Print Assumptions C15_stopping_test_within.
+
 (* ... and, for ML (no prior term), to the specification's weighted-least-squares solution *)
 Theorem C15_stopping_test_distance_to_ml :
   forall (m n : nat) (A : list (list Qc)) (b x0 : list Qc) (ce : covform) (mu : Qc) (gtol : Q) (x xs : list Qc),
